@@ -3,17 +3,27 @@ use crate::Property;
 
 pub mod c02;
 pub mod c03;
+pub mod c06;
+pub mod c07;
 pub mod c09;
 pub mod c10;
+pub mod c11;
+pub mod c15;
 pub mod c19;
+pub mod c20;
 
 pub fn lookup(id: &str) -> Option<Box<dyn Property>> {
     Some(match id {
         "C02" => Box::new(c02::C02),
         "C03" => Box::new(c03::C03),
+        "C06" => Box::new(c06::C06),
+        "C07" => Box::new(c07::C07),
         "C09" => Box::new(c09::C09),
         "C10" => Box::new(c10::C10),
+        "C11" => Box::new(c11::C11),
+        "C15" => Box::new(c15::C15),
         "C19" => Box::new(c19::C19),
+        "C20" => Box::new(c20::C20),
         _ => return None,
     })
 }
